@@ -202,3 +202,31 @@ func TestEqualityUniverse(t *testing.T) {
 	st.Exhaustive[prop+".equality-universe"] = fmt.Sprintf("%d^2 ordered pairs of universe values x %d places where equality is decided (contains, filter conditions, nested values) (shard %d/%d: %d cases)", len(universeC07), len(tmpls), shard, nshards, n)
 	st.mu.Unlock()
 }
+
+// TestC01NullMultiSelect: a multi-select applied to a null current node is null as a whole,
+// whatever its members are (literals and raw strings do not look at the current node) and
+// whatever is applied to it afterwards; exhaustive over small forms.
+func TestC01NullMultiSelect(t *testing.T) {
+	prop := envStr("VERIF_PROP", "C01")
+	ms := []string{"[`7`, a]", "[a, 'raw']", "{x: `1`}", "[`1`]", "[@]", "{a: @}", "[`[1,2]`, `{}`]", "{x: 'r', y: a}", "[[`1`]]", "[{x: `1`}]", "['a', 'b', 'c']"}
+	suffix := []string{"", "[0]", "[-1]", "[1]", ".x", "[*]", "[]", "[0:1]", " | [0]", "[?@]", "[0][0]", ".*", " || `2`", " && `2`", " == `null`"}
+	prefix := []string{"missing | ", "a.zz | ", "`null` | ", "missing.", "a[9].", "", "(missing) | ", "a.b.c.", "[missing][0] | ", "missing[*].", "not_null(missing) | "}
+	n := 0
+	for _, doc := range []string{"null", `{"a":1}`, `{"a":[1,2],"x":5}`} {
+		for _, p := range prefix {
+			for _, m := range ms {
+				for _, s := range suffix {
+					inner := p + m + s
+					for _, ctx := range []string{"%s", "[a, (%s)]", "{x: %s}"} {
+						run(t, Case{Property: prop, Kind: "diff", Expr: strings.Replace(ctx, "%s", inner, 1), Doc: doc, Extra: map[string]interface{}{"cell": "null-multiselect"}})
+						n++
+					}
+				}
+			}
+		}
+	}
+	st := statsFor(prop)
+	st.mu.Lock()
+	st.Exhaustive[prop+".null-multiselect"] = fmt.Sprintf("11 ways to a null (or non-null) current node x 11 multi-selects x 15 continuations x 3 contexts x 3 documents: %d cases", n)
+	st.mu.Unlock()
+}
